@@ -93,7 +93,7 @@ def make_tasks(tier, seed, variant='c01'):
             cases = covering_sample(config_factors(hierarchy, n_query, variant), k_cfg, rng)
             tasks.append(dict(seed=int(seed) + j, world=dict(taxonomy=shape, encoding=enc,
                                                             zero_cell=bool((i + j) % 2), n_query=n_query),
-                              cases=cases))
+                              cases=cases, hdf5=(variant == 'c03')))
     # random taxonomies (depth 1..3, <= 6 leaves, single-child parents likely)
     n_rand = (3 if quick else 14)
     for r in range(n_rand):
@@ -155,7 +155,7 @@ def _run_task(task):
                        obs_ids=list(world.query_cell_ids), stored_tree=_stored_tree_no_rows(world),
                        reduced=reduced_spec(world, case), marker_lookup=world.marker_lookup)
             try:
-                cfg = fx.mapping_config(world, marker_lookup_path=lookup_path, **case)
+                cfg = fx.mapping_config(world, marker_lookup_path=lookup_path, hdf5=bool(task.get('hdf5')), **case)
                 rec['type_assignment'] = dict(cfg['type_assignment'])
                 t0 = time.time()
                 try:
@@ -169,6 +169,14 @@ def _run_task(task):
                     continue
                 rec.update(status='ok', results=blob.get('results'), taxonomy_tree=blob.get('taxonomy_tree'),
                            marker_genes=blob.get('marker_genes'), wall_s=round(time.time() - t0, 3))
+                if task.get('hdf5'):
+                    # the same records as stored in the HDF5 output (C03 speaks of the confidence fields
+                    # of the output, whatever the container)
+                    try:
+                        from cell_type_mapper.utils.output_utils import hdf5_to_blob
+                        rec['results_hdf5'] = hdf5_to_blob(paths['hdf5']).get('results')
+                    except Exception as e:   # noqa
+                        rec['results_hdf5_error'] = f"{type(e).__name__}: {e}"
             except BaseException:   # noqa
                 rec.update(status='harness-error', error=traceback.format_exc()[-1500:])
             out.append(rec)
